@@ -22,6 +22,16 @@ def main(args):
     if driver is None:
         print("UNDECIDED driver build failed")
         return 2
+    hit0 = rec.get("failing_input") or {}
+    if hit0.get("kind") == "fecheck":
+        # a grammar text on which the front end failed: run the real front end on exactly that text
+        import subprocess
+        exe = os.path.join(runner.TARGET, "release", "fecheck")
+        p = subprocess.run([exe, "one", hit0["file"]], stdout=subprocess.PIPE, stderr=subprocess.PIPE, text=True, timeout=120)
+        bad = [l for l in p.stdout.split("\n") if l.startswith("FAIL")]
+        crashed = "DONE" not in p.stdout
+        print("replay front end on %s -> %s" % (hit0["file"], (bad[0][:300] if bad else ("crashed rc=%s" % p.returncode if crashed else "no failure"))))
+        return 1 if (bad or crashed) else 0
     u = None
     for x in runner.corpus("thorough"):
         if x["name"] == unit:
